@@ -3,14 +3,13 @@
    read-only).
 
    Most field parsers are *stable* (success persists, with the same consumption, under extension
-   of the input), as for BAI.  The exception is the tabix header / CSI aux block: the sequence
-   names (and the whole aux block) are read through io::Take, which silently delivers fewer
-   bytes when the input ends early -- so a header cut right behind a name's NUL parses as a
-   header with fewer names.  What still holds for such a parser on a strict prefix of its written
-   bytes: it fails or it *exhausts* the input ([p_header_cut], [p_aux_cut]); the next field
-   (n_ref for CSI, the first reference for tabix) then fails on the empty input.  The one
-   combination in which nothing follows is a tabix index with names but no reference sequence:
-   there the shortened header IS accepted ([tbi_truncation_no_refs]). *)
+   of the input), as for BAI.  The tabix header / CSI aux block read the sequence names (and the
+   whole aux block) through io::Take, which silently delivers fewer bytes when the input ends
+   early; since repair d82cb79 the names reader checks that the take delivered all l_nm bytes,
+   so the header parser FAILS on every strict prefix of its written bytes ([p_names_cut],
+   [p_header_cut], [p_aux_cut]).  (Before that repair a header cut right behind a name's NUL
+   parsed as a header with fewer names, which a tabix index without reference sequences
+   accepted: finding tabix-truncated-names-accepted-no-refs, now fixed.) *)
 From Coq Require Import List Arith NArith Bool Lia ZifyBool ZifyNat ZifyN.
 From NV Require Import Base.LE Index.Bins Index.Chunks Index.Indexer Index.CsiLoffset
   Index.Layout Index.LayoutProofs Index.CsiLayout Index.CsiLayoutProofs Trunc.BaiProofs.
@@ -245,12 +244,9 @@ Proof.
   unfold i32_max in E. lia.
 Qed.
 
-(* the names block on a strict prefix of its written bytes: failure, or everything consumed *)
+(* the names block on a strict prefix of its written bytes: an error (the take is short) *)
 Lemma p_names_cut names k : names_len names < 2147483648 -> (k < length (w_names names))%nat ->
-  match p_names (firstn k (w_names names)) with
-  | None => True
-  | Some (_, rest) => rest = [] /\ names <> []
-  end.
+  p_names (firstn k (w_names names)) = None.
 Proof.
   intros Hb Hk. unfold w_names in *. set (C := concat (map w_name names)) in *.
   assert (HC : N.of_nat (length C) = names_len names) by apply names_len_length.
@@ -259,21 +255,16 @@ Proof.
               (fun rest => p_i32_nonneg_app _ rest Hb) k C) as [Hlt Hge].
   rewrite le32_length in Hlt, Hge. unfold p_names.
   destruct (Nat.ltb k 4) eqn:E4.
-  - rewrite Hlt by lia. exact I.
+  - rewrite Hlt by lia. reflexivity.
   - rewrite Hge by lia.
-    assert (Hs : skipn (N.to_nat (names_len names)) (firstn (k - 4) C) = []).
-    { apply skipn_all2. rewrite firstn_length. lia. }
-    rewrite Hs.
-    destruct (split_nul _ []) as [nm|]; [|exact I].
-    destruct (nodupb nm); [|exact I].
-    split; [reflexivity|]. intros Hn. subst names. cbn in HC. unfold C in Hk. cbn in Hk. lia.
+    replace (length (firstn (k - 4) C) <? N.to_nat (names_len names))%nat with true
+      by (rewrite firstn_length; lia).
+    destruct (split_nul _ []) as [nm|]; [|reflexivity].
+    destruct (nodupb nm); reflexivity.
 Qed.
 
 Lemma p_header_cut hd k : header_ok hd -> (k < length (w_header hd))%nat ->
-  match p_header (firstn k (w_header hd)) with
-  | None => True
-  | Some (_, rest) => rest = [] /\ h_names hd <> []
-  end.
+  p_header (firstn k (w_header hd)) = None.
 Proof.
   intros Hok Hk. rewrite w_header_split in *. rewrite app_length, w_hfix_length in Hk.
   rewrite p_header_split.
@@ -281,18 +272,16 @@ Proof.
               (fun rest => p_hfix_w hd rest Hok) k (w_names (h_names hd))) as [Hlt Hge].
   rewrite w_hfix_length in Hlt, Hge.
   destruct (Nat.ltb k 24) eqn:E.
-  - rewrite Hlt by lia. exact I.
+  - rewrite Hlt by lia. reflexivity.
   - rewrite Hge by lia.
-    pose proof (p_names_cut (h_names hd) (k - 24) (names_bound hd Hok) ltac:(lia)) as Hn.
-    destruct (p_names (firstn (k - 24) (w_names (h_names hd)))) as [[nm r7]|]; [|exact I].
-    exact Hn.
+    rewrite (p_names_cut (h_names hd) (k - 24) (names_bound hd Hok)) by lia. reflexivity.
 Qed.
 
 Definition aux_ok (h : option header) : Prop :=
   match h with Some hd => header_ok hd /\ N.of_nat (length (w_header hd)) < 2147483648 | None => True end.
 
 Lemma p_aux_cut h k : aux_ok h -> (k < length (w_aux h))%nat ->
-  match p_aux (firstn k (w_aux h)) with None => True | Some (_, rest) => rest = [] end.
+  p_aux (firstn k (w_aux h)) = None.
 Proof.
   intros Hok Hk. destruct h as [hd|]; cbn [w_aux aux_ok] in *.
   - destruct Hok as [Hok Hlen]. set (W := w_header hd) in *.
@@ -301,18 +290,16 @@ Proof.
                 (fun rest => p_i32_nonneg_app _ rest Hlen) k W) as [Hlt Hge].
     rewrite le32_length in Hlt, Hge. unfold p_aux.
     destruct (Nat.ltb k 4) eqn:E4.
-    + rewrite Hlt by lia. exact I.
+    + rewrite Hlt by lia. reflexivity.
     + rewrite Hge by lia.
       pose proof (w_header_length_pos hd) as Hp. fold W in Hp.
       replace (0 <? N.of_nat (length W)) with true by lia.
       rewrite Nat2N.id.
       rewrite (firstn_all2 (firstn (k - 4) W)) by (rewrite firstn_length; lia).
-      rewrite (skipn_all2 (firstn (k - 4) W)) by (rewrite firstn_length; lia).
       pose proof (p_header_cut hd (k - 4) Hok ltac:(fold W; lia)) as Hc. fold W in Hc.
-      destruct (p_header (firstn (k - 4) W)) as [[h' rr]|]; [|exact I].
-      destruct Hc as [Hr _]. subst rr. reflexivity.
+      rewrite Hc. reflexivity.
   - rewrite le32_length in Hk.
-    destruct k as [|[|[|[|k]]]]; try lia; exact I.
+    destruct k as [|[|[|[|k]]]]; try lia; reflexivity.
 Qed.
 
 (* ---------- CSI ---------- *)
@@ -483,8 +470,7 @@ Proof.
       * rewrite Hbody by lia. rewrite Ppre_ge by lia.
         rewrite firstn_app_le by lia.
         pose proof (p_aux_cut (ci_header i) (k - 4 - length P) Hh ltac:(fold X; lia)) as Hc. fold X in Hc.
-        destruct (p_aux (firstn (k - 4 - length P) X)) as [[h r3]|]; [|reflexivity].
-        subst r3. reflexivity.
+        rewrite Hc. reflexivity.
       * rewrite Haux by lia. rewrite Pref_lt by lia. reflexivity.
   - intros Hk. rewrite Haux by lia. rewrite Pref_ge by lia.
     rewrite p_unplaced_short by (rewrite firstn_length; lia). reflexivity.
@@ -594,13 +580,13 @@ Lemma w_tbi_bytes_split i hd : ti_header i = Some hd ->
                   ++ w_unplaced (ti_unplaced i).
 Proof. intros H. unfold w_tbi_bytes, w_tbi_refs. rewrite H. reflexivity. Qed.
 
-(* THE TABIX THEOREM.  Below the optional trailing count every cut is an error PROVIDED a
-   reference sequence follows the header or the header has no names; inside the count the
-   index without it; the index on the whole payload *)
+(* THE TABIX THEOREM.  Below the optional trailing count every cut is an error (no premise on
+   names / reference sequences since repair d82cb79); inside the count the index without it;
+   the index on the whole payload *)
 Theorem tbi_truncation : forall i hd k, tbi_ok i -> ti_header i = Some hd ->
   let file := w_tbi_bytes i in
   let base := length (w_tbi_bytes (tbi_no_count i)) in
-  ((k < base)%nat -> ti_refs i <> [] \/ h_names hd = [] -> read_tbi (firstn k file) = None) /\
+  ((k < base)%nat -> read_tbi (firstn k file) = None) /\
   ((base <= k < length file)%nat -> read_tbi (firstn k file) = Some (reread_tbi (tbi_no_count i))) /\
   ((length file <= k)%nat -> read_tbi (firstn k file) = Some (reread_tbi i)).
 Proof.
@@ -623,56 +609,29 @@ Proof.
   change (ti_unplaced (tbi_no_count i)) with (@None N).
   rewrite Hhd. cbn [option_map].
   split; [|split].
-  - intros Hk Hpre. destruct (Nat.ltb k 8) eqn:E8; [apply C1; lia|].
+  - intros Hk. destruct (Nat.ltb k 8) eqn:E8; [apply C1; lia|].
     destruct (Nat.ltb k (8 + length W)) eqn:EW; [|apply C3; lia].
     rewrite C2 by lia.
     pose proof (p_header_cut hd (k - 8) Hh ltac:(fold W; lia)) as Hc. fold W in Hc.
-    destruct (p_header (firstn (k - 8) W)) as [[h' r2]|]; [|reflexivity].
-    destruct Hc as [Hr2 Hnm]. subst r2.
-    destruct Hpre as [Hrefs|Hnames]; [|contradiction].
-    destruct (ti_refs i) as [|r0 rs]; [contradiction|]. reflexivity.
+    rewrite Hc. reflexivity.
   - intros Hk. rewrite C4 by lia. rewrite p_unplaced_short by (rewrite firstn_length; lia). reflexivity.
   - intros Hk. rewrite C4 by lia. rewrite firstn_all2 by lia.
     unfold T. rewrite p_unplaced_w by exact Hu. reflexivity.
 Qed.
 
-(* the exceptional class, exactly: a tabix index WITHOUT reference sequences whose header has
-   names.  A cut inside the header is accepted precisely when the header parser accepts the part
-   present (a cut right behind the NUL of a name), and the result is that shortened header with
-   no references and no count *)
-Theorem tbi_truncation_no_refs : forall i hd k, tbi_ok i -> ti_header i = Some hd -> ti_refs i = [] ->
-  (k < 8 + length (w_header hd))%nat ->
-  read_tbi (firstn k (w_tbi_bytes i)) =
-    if (k <? 8)%nat then None
-    else match p_header (firstn (k - 8) (w_header hd)) with
-         | None => None
-         | Some (h', _) => Some (mktbi (Some h') [] None)
-         end.
-Proof.
-  intros i hd k Hok Hhd Hrefs Hk.
-  rewrite (w_tbi_bytes_split i hd Hhd).
-  destruct (tbi_cut i hd k Hok Hhd) as (C1 & C2 & _ & _). cbn zeta in C1, C2.
-  destruct (Nat.ltb k 8) eqn:E8; [apply C1; lia|].
-  rewrite C2 by lia.
-  pose proof Hok as (Hh & _). rewrite Hhd in Hh.
-  pose proof (p_header_cut hd (k - 8) Hh ltac:(lia)) as Hc.
-  destruct (p_header (firstn (k - 8) (w_header hd))) as [[h' r2]|]; [|reflexivity].
-  destruct Hc as [Hr2 _]. subst r2. rewrite Hrefs. reflexivity.
-Qed.
-
-(* non-vacuity of the exceptional class: names "a", "b", no reference sequence; the payload is
-   40 bytes, the cut 38 (behind the NUL of "a") reads as a valid index with one name *)
+(* the formerly exceptional class (names "a", "b", no reference sequence; finding
+   tabix-truncated-names-accepted-no-refs, repaired by d82cb79): the payload is 40 bytes and
+   EVERY proper prefix is an error -- also the cuts right behind l_nm (36) and behind the NUL of
+   "a" (38), which the reader used to accept as indexes with 0 and 1 names *)
 Definition ex_tbi_hdr : header := mkhdr FVcf 0 1 None 35 0 [[97]; [98]].
 Definition ex_tbi_norefs : tbi_index := mktbi (Some ex_tbi_hdr) [] None.
 Example tbi_no_refs_example :
   length (w_tbi_bytes ex_tbi_norefs) = 40%nat /\
   read_tbi (w_tbi_bytes ex_tbi_norefs) = Some ex_tbi_norefs /\
   read_tbi (firstn 39 (w_tbi_bytes ex_tbi_norefs)) = None /\
-  read_tbi (firstn 38 (w_tbi_bytes ex_tbi_norefs)) =
-    Some (mktbi (Some (mkhdr FVcf 0 1 None 35 0 [[97]])) [] None) /\
+  read_tbi (firstn 38 (w_tbi_bytes ex_tbi_norefs)) = None /\
   read_tbi (firstn 37 (w_tbi_bytes ex_tbi_norefs)) = None /\
-  read_tbi (firstn 36 (w_tbi_bytes ex_tbi_norefs)) =
-    Some (mktbi (Some (mkhdr FVcf 0 1 None 35 0 [])) [] None).
+  read_tbi (firstn 36 (w_tbi_bytes ex_tbi_norefs)) = None.
 Proof. vm_compute. repeat split. Qed.
 
 Example csi_trunc_example :
